@@ -21,3 +21,7 @@ pub use crate::frame::types::Consistency;
 
 #[doc(hidden)]
 pub use scylla_cql_core::_macro_internal;
+
+// Verification hook (inert unless built by `cargo kani`, which sets --cfg kani).
+#[cfg(kani)]
+mod verif_kani;
